@@ -33,6 +33,7 @@ import (
 const prop = "C14"
 
 func TestMain(m *testing.M) {
+	evid.QuietStderr()
 	vmodel.CallTimeout = 15 * time.Minute // the vwatch watchdog (with its parked-goroutine analysis) fires first
 	vcompose.LeafTypes = []string{"verif", "verif", "memory", "localdisk", "diskpacked"}
 	evid.Main(m, prop, "exploration",
